@@ -189,4 +189,14 @@ PROPS = {
              'non-trivial = every case.',
         exhaustive=dict(quick=False, thorough=False),
         assumptions=['TZ=UTC', 'harness-side range expansion']),
+    'C11': dict(
+        level_text='Runtime monitoring with a constructive oracle: sentences of the manual\'s pretty-format grammar are generated from (value, spelling) choices - decimal / hex / octal / i,h,f,d suffixes / exponent forms / hex floats / decimal with the exact value in parentheses, escaped characters, strings incl. backslash-concatenated ones, identifiers and quoted symbols, now/immediately, timestamps with optional time and fraction, MIDI, blobs, colours, NxA repetitions (also of arrays), "a b ... c" ranges over c/i/h/f/d with and without left neighbour, arrays incl. open-ended ranges at their end - up to ~10 values per text. For each sentence the plain layout and two layouts with 0..3 whitespace/newline/tab/comment insertions between values are checked: the syntax checker accepts, the scanner writes exactly the counted values and consumes the text, the values equal the ones the spelling denotes (bit-exact), layouts scan to equal values, and printing the scanned values (random options) and scanning again yields equal values.',
+        level_note='Expected values come from the generator (strtof/strtod for decimal spellings, exact arithmetic for ranges built from exactly representable steps). Overlapping ranges, ranges of other than c/i/h/f/d and leading/trailing filler are outside the documented grammar and not generated.',
+        technique='constructive-oracle (value-first) generator + round-trip monitor under AddressSanitizer/UBSan',
+        stages=[dict(harness='c11', variant='asan', quick=20000, thorough=1000000,
+                     need=['sentences', 'layouts', 'reprints', 'syntax.array', 'syntax.multiplier', 'syntax.range_with_delta', 'syntax.range_unit_step', 'syntax.endless_range_with_delta',
+                           'syntax.endless_range_deltaless', 'syntax.hex_int', 'syntax.hex_float', 'syntax.exact_value_in_parentheses', 'syntax.concatenated_string', 'syntax.quoted_symbol', 'syntax.time_fraction'])],
+        rule='case = one sentence (3 layouts + 1 reprint); distinct = hash of the plain sentence; every sentence is non-trivial.',
+        exhaustive=dict(quick=False, thorough=False),
+        assumptions=['TZ=UTC', 'generator-side expected values']),
 }
